@@ -12,7 +12,7 @@ for ALL bit lists, both sides of every operand and all cut points — no bound o
 again an `ofABuf`, the theorems compose: any expression built from these operations denotes what the bit-list
 expression denotes, and is canonical.
 -/
-import Schc.Proofs.BufChunks
+import Schc.Proofs.BufAdd
 
 namespace Schc
 
